@@ -196,6 +196,16 @@ def directed():
              _b('b0', 'once', [], [], body=['if s.c0.enq.rdy(): s.c0.enq( int(s.in0) )'])],
            conns=[[R('out0'), R('c0', 'out0')]])
   D.append(('parent-calls-interface', top, [{'path': ['c0'], 'new': nbq(9132), 'mode': 'cls'}], {'nomodel': True, 'blame': 'interface'}))
+  # 15. method nets INSIDE the replacement: a child without any method port (pure RTL / placeholder) is replaced by one
+  #     that calls a helper child's method through an internally connected CallerPort; then the reverse; then both-with
+  def helper(uid): return _c(uid, 0, 0, mport=True)
+  def cl(uid):
+    return _c(uid, 1, 1, caller=['c0'], items=[_k('c0', helper(uid + 1)), _b('b0', 'once', [R('in0')], [R('out0')], calls_cp=True)])
+  for n, first in ((9140, plain_leaf(9141)), (9150, _c(9151, 1, 1, ph=True))):
+    top = _c(n, 1, 1, items=[_k('c0', first)], conns=[[R('c0', 'in0'), R('in0')], [R('out0'), R('c0', 'out0')]])
+    D.append(('internal-method-net' + ('-ph' if first.get('ph') else ''), top,
+              [{'path': ['c0'], 'new': cl(n + 2), 'mode': 'cls'}, {'path': ['c0'], 'new': cl(n + 4), 'mode': 'obj'},
+               {'path': ['c0'], 'new': plain_leaf(n + 6), 'mode': 'cls'}, {'path': ['c0'], 'new': cl(n + 7), 'mode': 'obj'}], {}))
   return D
 
 # ----------------------------------------------------------------------------------------------- one case
@@ -217,6 +227,7 @@ def features(spec):
     if s['rdu']: f.add('RDU')
     if s['wru']: f.add('WRU')
     if s['mport']: f.add('mport')
+    if s.get('caller'): f.add('method-net')
   walk(spec, True)
   return f
 
@@ -228,6 +239,7 @@ def crossing(parent, slot):
       if any(r[0][:1] == [slot] for r in it['writes']): f.add('parent-blk-write')
       if it['func'] and any(r[0][:1] == [slot] for r in it['reads'] + it['writes']): f.add('parent-func')
       if any(r[0][:1] == [slot] for r in it.get('mcalls', [])): f.add('parent-blk-call')
+  if parent.get('caller') == [slot]: f.add('parent-method-connect')
   if any(r[0][:1] == [slot] for r, _ in parent['consts']): f.add('parent-const')
   if any(a[0][:1] == [slot] or b[0][:1] == [slot] for a, b in parent['conns']): f.add('parent-connect')
   return f
@@ -522,7 +534,8 @@ def random_case(rng, g, idx):
     old = U.sub(cur, path)
     mode = rng.choice(['cls', 'obj'])
     parent = U.sub(cur, path[:-1])
-    called = any(r[0] == [path[-1]] for it in parent['items'] if it['t'] == 'blk' for r in it.get('mcalls', []))
+    called = any(r[0] == [path[-1]] for it in parent['items'] if it['t'] == 'blk' for r in it.get('mcalls', [])) or \
+             parent.get('caller') == [path[-1]]
     new = g.spec(old['nin'], old['nout'], rng.choice([0, 0, 1, 2]) if len(path) < 3 else 0,
                  k=old['k'] if mode == 'cls' else None, mport=True if called else None)
     steps.append({'path': list(path), 'new': new, 'mode': mode})
